@@ -172,6 +172,7 @@ def idA1 (a : Agent) (now : Nat) (l : Cand) (src : Nat) : Agent × Bool :=
 theorem id_eq (a : Agent) (now : Nat) (l : Cand) (src len : Nat) :
     a.inboundData now l src len =
       (if !(idA1 a now l src).2 then ((idA1 a now l src).1, [])
+       else if !rxFits (idA1 a now l src).1.rx len then ((idA1 a now l src).1, [])
        else
         let a := { (idA1 a now l src).1 with rx := (idA1 a now l src).1.rx ++ [len] }
         let a := if len > 0 then
@@ -204,6 +205,8 @@ theorem Inv.inboundData {a : Agent} (hi : Inv a) (hc : a.closed = false) (now : 
   generalize AgentC06.idA1 a now l src = d at h1
   obtain ⟨b, ok⟩ := d
   simp only [] at h1 ⊢
+  split
+  · exact h1
   split
   · exact h1
   · have h2 : Evo b { b with rx := b.rx ++ [len] } := Same.evo rfl
